@@ -30,12 +30,14 @@ RULE = ("one case = one generated (phased VCF, BAM, option set) run through the 
 MANIFEST = dict(
     text="Lean 4 theorems about a model of haplotag's decision rule (per-phase-set score accumulation = sum of agreeing "
          "allele qualities, strict maximum within the reported set, ties/no variants untagged, exchange symmetry for any "
-         "ploidy) and of the alignment stream (conservation); tied to the working tree by running the real CLI on generated "
-         "VCF/BAM pairs and comparing every output record with the input and with the model's tags",
+         "ploidy) and of the whole run (sample selection, variant information, sample loop, contig loop with regions / contigs "
+         "unknown to the VCF, write loop, haplotag list: conservation, list = tags, every written tag backed by a read cloud's "
+         "decision); tied to the working tree by running the real CLI on generated VCF/BAM pairs and comparing every output "
+         "record and list line with the input and with the model, and haplotag's helper functions in-process",
     design_ref="DESIGN.md §5 C10",
     note="proof of the decision rule and of conservation on the stream model; htslib/pysam record I/O and allele detection "
-         "(C06) are trusted/differential; F17 (--regions writes alignments once per overlapping region, in region order, or "
-         "fails on unsorted/overlapping regions) is reported until fixes/F17.patch is applied",
+         "(C06) are trusted/differential; reported until repaired: F70 (--skip-missing-contigs leaves alignments out of the output, "
+         "key skip-missing-contigs-drops), F71 (tags cross samples through equal read names / barcodes, key tags-cross-samples)",
     technique="Lean 4 proof (invariant of the accumulation loop = spec sums; permutation lemmas) + differential CLI runs",
 )
 ASSUMPTIONS = [
